@@ -381,18 +381,21 @@ F16_ENCODINGS = ("Big5", "EUC-KR", "Shift_JIS")
 
 
 def f16_shape(case):
-    """a multi-byte `dec` case (with index facts) that feeds an EMPTY piece after the first piece to one of
+    """a multi-byte `dec` case (with index facts) that feeds an EMPTY piece right after a possible lead byte to one of
     encoding_rs' two-byte macro decoders: known finding F16 (encoding_rs drops a pending lead byte on an
     empty feed; hook-only). The WHATWG machine of the model does not, so model and implementation are
     EXPECTED to differ exactly there; the Rust oracle tags the cases where it bites."""
     f = case.split(" ")
     if len(f) != 7 or f[0] != "dec" or f[1] not in F16_ENCODINGS:
         return False
-    n = len(f[4]) // 2 if f[4] != "-" else 0
+    data = bytes.fromhex(f[4]) if f[4] != "-" else b""
+    n = len(data)
     cuts = [min(int(c), n) for c in f[5].split(",")] if f[5] != "-" else []
     bounds = [0] + cuts + [n]
-    pieces = [bounds[i + 1] - bounds[i] for i in range(len(bounds) - 1)]
-    return any(p <= 0 for p in pieces[1:])
+    # an empty piece at offset p > 0 right after a byte that can be a lead (>= 0x81): only then can a lead
+    # be pending when the empty slice is fed
+    return any(bounds[i + 1] <= bounds[i] and bounds[i] > 0 and data[bounds[i] - 1] >= 0x81
+               for i in range(1, len(bounds) - 1))
 
 
 def project(pid, case, line):
